@@ -70,6 +70,21 @@ pub fn gen_tree(rng: &mut Rng, depth: usize, counter: &mut u32) -> Node {
     n
 }
 
+/// a deep spine (100-300 levels) with bushy subtrees hanging off it at random depths, including the bottom
+pub fn gen_deep_tree(rng: &mut Rng, counter: &mut u32) -> Node {
+    let depth = rng.range(100, 300);
+    let mut cur = gen_tree(rng, 3, counter);
+    for d in (0..depth).rev() {
+        let mut n = Node::new(K(*counter));
+        *counter += 1;
+        if rng.chance(1, 3) { let c = gen_tree(rng, 4, counter); n.children.push(c); }
+        n.children.push(cur);
+        if rng.chance(1, 3) || d > depth - 3 { let c = gen_tree(rng, 4, counter); n.children.push(c); }
+        cur = n;
+    }
+    cur
+}
+
 pub fn tree_sexpr(n: &Node) -> String {
     let mut s = format!("({}", n.cast::<K>().map(|k| k.0).unwrap_or(999999));
     for c in n.children.iter() { s.push_str(&tree_sexpr(c)); }
@@ -107,7 +122,7 @@ pub fn run(n: usize, rng: &mut Rng, rep: &mut Report) {
     // traversal and replace
     for _ in 0..n / 4 + 1 {
         let mut counter = 0;
-        let mut t = gen_tree(rng, 0, &mut counter);
+        let mut t = if rng.chance(1, 6) { gen_deep_tree(rng, &mut counter) } else { gen_tree(rng, 0, &mut counter) };
         let input = format!("tree={}", tree_sexpr(&t));
         let mut got = vec![];
         t.walk(|n, d| got.push((n.cast::<K>().unwrap().0, d)));
